@@ -418,7 +418,9 @@ impl Sim {
             drop(st);
             panic!("{}", READ_BUDGET_MSG);
         }
-        let res = match st.disk.get(path) {
+        let too_long = path.as_os_str().len() >= crate::model::PATH_MAX; // ENAMETOOLONG
+        let path = &crate::model::lexical(path);
+        let res = match st.disk.get(path).filter(|_| !too_long) {
             Some(FileState::Text(t)) => Some(t.clone()),
             Some(FileState::Unreadable) => {
                 st.counters.disk_read_unreadable += 1;
